@@ -92,7 +92,10 @@ Init == /\ n = Bootup(Node0(HbInit, HcInit)).n
         /\ hist = <<>> /\ prev = <<>> /\ gh = [c09 |-> TRUE, c10 |-> TRUE, c11 |-> TRUE, c20 |-> TRUE]
 Next == \E l \in Letters : Do(l)
 \* the event counter only matters up to saturation: bound it in exhaustive runs
-Bound == \A k \in 1..Len(n.hc) : n.hc[k].ev <= EvCap
+\* (long heartbeat times - 32767 / 32768 / 65535 ms - are in the C10 alphabet for the value range of 1017h: their countdown is
+\* followed for the first ticks only)
+Bound == /\ \A k \in 1..Len(n.hc) : n.hc[k].ev <= EvCap
+         /\ (n.hbRem <= 8 \/ n.hbRem >= n.hbT - 2)
 InvC20 == gh.c20
 InvC09 == gh.c09
 InvC10 == gh.c10
